@@ -58,6 +58,7 @@ func Intervals(g graph.Directed, eid int64) IntervalGraph {
 	slices.Reverse(ns)
 	var worklist linear.NodeQueue
 	worklist.Enqueue(g.Node(eid))
+	isHeader := map[int64]bool{eid: true}
 	inInterval := make(map[int64]graph.Node)
 	node2interval := make(map[int64]*Interval)
 	id := int64(0)
@@ -72,23 +73,21 @@ func Intervals(g graph.Directed, eid int64) IntervalGraph {
 		id++
 		intervals = append(intervals, &interval)
 
+		// Add to the worklist every node that is not yet a header or in
+		// an interval, but has an immediate predecessor in this interval.
 		for _, node := range ns {
-			if inInterval[node.ID()] != nil {
+			nid := node.ID()
+			if inInterval[nid] != nil || isHeader[nid] {
 				continue
 			}
 
-			preds := g.To(node.ID())
-			predsLength := preds.Len()
-			x := 0
+			preds := g.To(nid)
 			for preds.Next() {
 				if interval.nodes[preds.Node().ID()] != nil {
-					x++
+					isHeader[nid] = true
+					worklist.Enqueue(node)
+					break
 				}
-			}
-
-			if 0 < x && x < predsLength {
-				worklist.Enqueue(node)
-				break
 			}
 		}
 	}
